@@ -67,17 +67,16 @@ def judge(res, job, wrap=False, classify=None):
             t["judged"] += 1
             va, vb = Fr(a) * Fr(2) ** e1, Fr(b) * Fr(2) ** e2
             want = va < vb if op == "<" else va == vb
+            al_over = False
             if k.get("fixed") and e1 != e2:
-                # fixed-width representations (wide_integer): like built-in reps, the exponent alignment of the coarser operand has to fit
+                # fixed-width representations (wide_integer): does the exponent alignment of the coarser operand fit the rep? (the property
+                # restricts only built-in reps to such pairs, so the others are judged; a wrong answer there is the recorded KF-C03-02)
                 al = (a << (e1 - e2)) if e1 > e2 else (b << (e2 - e1))
-                if abs(al) >> max(k["digits1"], k["digits2"]):
-                    t["judged"] -= 1
-                    t["ood"] += 1
-                    continue
+                al_over = bool(abs(al) >> max(k["digits1"], k["digits2"]))
             if kind != "VALUE":
                 viol("event:" + kind + ":" + op, "a value")
             elif rh != ("1" if want else "0"):
-                viol("wrong:" + ("<" if op == "<" else "=="), "1" if want else "0")
+                viol("wrong:" + ("<" if op == "<" else "==") + (":alignment_exceeds_the_fixed_width_rep" if al_over else ""), "1" if want else "0")
             elif a < 0 or b < 0:
                 t["nt"] += 1
             continue
